@@ -258,7 +258,7 @@ def c17_jobs(tier):
     H(11, 2, 2, 4, 9, 0, 10)
     if not q:
         H(5, 0, 0, 0, 0, 0, 100, timeout_ms=300000)
-        H(5, 0, 0, 1, 0, 0, 100, timeout_ms=300000)
+        # runs distribution under REVERSAL at n=100 does not finish within the job budget (3000 s): not registered
         H(11, 3, 3, 3, 0, 9, 20)
     return [j for j in jobs if j is not None]
 
@@ -402,7 +402,7 @@ PROPS = {
         'jobs': c17_jobs,
         'technique': 'solver-based relational checking of the real code: two symbolic executions (x and T(x)) of the same go/ssa functions, counts identified by guard pairing, tails compared in reals+UF with the erfc reflection axiom; models replayed natively',
         'bounds': {'quick': 'complement: monobit (Q->1-Q), runs, block frequency, poker, overlapping, approximate entropy, binary derivative, autocorrelation at n<=12..19, longest run ones<->zeros at n=128,131, cumulative sums n<=8 every excursion; reversal: monobit, runs, overlapping, approximate entropy, binary derivative, autocorrelation, forward<->backward cumulative sums; every rotation at n=8,11 for overlapping and approximate entropy; adjacent whole-block swaps and every discarded-tail bit for block frequency, poker, longest run, rank (2x2), linear complexity (m=3,4)',
-                   'thorough': 'the same families up to n=24 (approximate entropy m=2 up to n=16, m=5 up to n=10; cumulative n<=14), runs distribution under complement and reversal at n=100, rank 3x3'},
+                   'thorough': 'the same families up to n=24 (approximate entropy m=2 up to n=16, m=5 up to n=10; cumulative n<=14), runs distribution under complement at n=100, rank 3x3'},
         'outside': 'Maurer and DFT symmetries; n above the bounds; non-adjacent block permutations are covered as products of adjacent swaps (argument); binary64 rounding (counts are proven equal, tails compared as exact reals)',
         'assumptions': ['erfc(-v) = 2 - erfc(v), erf(-v) = -erf(v) (axioms of the uninterpreted functions)', 'igamc/log uninterpreted'],
     },
